@@ -25,15 +25,16 @@ type Fault struct {
 }
 
 type Faults struct {
-	Plan    map[string]*Fault
-	Fired   map[string]int
-	stopped bool
+	Plan     map[string]*Fault
+	Fired    map[string]int
+	stopped  bool
+	released chan struct{} // closed by Stop: calls hanging because of an injected fault time out
 	// ListScript forces the outcome of the k-th list call (1-based): "" = normal
 	ListScript map[int]string
 }
 
 func NewFaults(plan map[string]Fault) *Faults {
-	f := &Faults{Plan: map[string]*Fault{}, Fired: map[string]int{}, ListScript: map[int]string{}}
+	f := &Faults{Plan: map[string]*Fault{}, Fired: map[string]int{}, ListScript: map[int]string{}, released: make(chan struct{})}
 	for k, v := range plan {
 		v := v
 		f.Plan[k] = &v
@@ -66,8 +67,9 @@ func (f *Faults) Roll(kind string) bool {
 
 // Stop disables all further fault injection.
 func (f *Faults) Stop() {
-	if f != nil {
+	if f != nil && !f.stopped {
 		f.stopped = true
+		close(f.released)
 	}
 }
 
@@ -286,8 +288,13 @@ func (s *Server) List(ctx context.Context, opts metav1.ListOptions) (runtime.Obj
 	}
 	if script == "hang" {
 		call.Outcome = "hang"
-		<-ctx.Done()
-		return nil, ctx.Err()
+		select {
+		case <-ctx.Done():
+			return nil, ctx.Err()
+		case <-s.F.released:
+			// the injected partition heals: the call proceeds normally
+			call.Outcome = "ok"
+		}
 	}
 	if !sleepCtx(ctx, s.latency(s.ListLatency[0], "pre")) {
 		call.Outcome = "cancelled"
@@ -373,10 +380,15 @@ func (s *Server) Watch(ctx context.Context, opts metav1.ListOptions) (watch.Inte
 	if s.F.Roll("watch-connect-hang") {
 		call.Outcome = "connect-hang"
 		s.InflightWatch++
-		<-ctx.Done()
-		s.InflightWatch--
+		defer func() { s.InflightWatch-- }()
 		call.Ended = true
-		return nil, ctx.Err()
+		select {
+		case <-ctx.Done():
+			return nil, ctx.Err()
+		case <-s.F.released:
+			// the injected partition ends: the connect attempt times out
+			return nil, ErrInjectedWatch
+		}
 	}
 	if d := s.F.Plan["watch-connect-delay"]; d != nil && s.F.Roll("watch-connect-delay") {
 		if !sleepCtx(ctx, 300*time.Millisecond) {
